@@ -4,7 +4,10 @@
 // against a second in-memory registry addressed with prefix/name directly. A view is built
 // either in one step, Sub(r, "a/b/c"), or as a view of a view, Sub(Sub(r, "a"), "b/c");
 // a sequence returned by a listing method may be iterated more than once, at once or later
-// in the history.
+// in the history. A view is a value that lives for a whole history: the calls of a history
+// may each carry their own context scope (wider, narrower, equal, unrelated to the one of
+// the call before), and several views may be alive together over one backend, the calls
+// of the history going to one or the other.
 package main
 
 import (
@@ -39,9 +42,23 @@ type backendCfg struct {
 	Mem     []S       `json:"mem,omitempty"`      // forward to an ocimem registry holding these repositories
 }
 
+// opCtx is what one call of a history with per-call contexts is made with.
+type opCtx struct {
+	Scope *filt.Scope `json:"scope,omitempty"` // nil: no scope in the context
+	View  int         `json:"view,omitempty"`  // 0: the case's view; k > 0: the view for Views[k-1]
+}
+
 type input struct {
 	Kind   string `json:"kind"` // hist | seq | list | twin | promoted | join
 	Prefix S      `json:"prefix"`
+	// Ctxs, when not empty, runs parallel to Hist (hist cases) and replaces Scope: call i is
+	// made under Ctxs[i].Scope on the view Ctxs[i].View. Views are the prefixes of further
+	// views, each one Sub value built over the same backend before the first call.
+	Ctxs  []opCtx `json:"ctxs,omitempty"`
+	Views []S     `json:"views,omitempty"`
+	// Warm (seq cases): scopes of calls made on the same view before the listing that is
+	// observed (not part of the observation).
+	Warm []*filt.Scope `json:"warm,omitempty"`
 	// Stack, when not empty, says how the view is built: Sub applied once per element,
 	// innermost first; Prefix is then the elements joined with "/" (see view).
 	Stack []S `json:"stack,omitempty"`
@@ -195,6 +212,9 @@ func perform(ctx context.Context, r ociregistry.Interface, op filt.Op, ws *filt.
 // againOf reports Again[i] when it names an earlier operation that is the same call.
 func (in input) againOf(i int) int {
 	if i < len(in.Again) && in.Again[i] > 0 && in.Again[i] <= i && reflect.DeepEqual(in.Hist[in.Again[i]-1], in.Hist[i]) {
+		if len(in.Ctxs) > 0 && !reflect.DeepEqual(in.Ctxs[in.Again[i]-1], in.Ctxs[i]) {
+			return 0 // not the same call: another context or another view
+		}
 		return in.Again[i]
 	}
 	return 0
@@ -322,11 +342,38 @@ func runHist(in input) (string, observed) {
 	} else {
 		b.Answer = in.Backend.answer(b)
 	}
-	w := view(lazy{b.Interface()}, in)
+	base := lazy{b.Interface()}
+	w := view(base, in)
 	ws := &filt.Writers{Index: b.WriterIndex}
 	kept := newSeqs()
 	var obs observed
 	var terms []string
+	if len(in.Ctxs) > 0 {
+		// every call under its own context, on one of the views alive over the backend
+		if len(in.Ctxs) != len(in.Hist) {
+			panic("harness: ctxs does not run parallel to hist")
+		}
+		views, prefixes := []ociregistry.Interface{w}, []S{in.Prefix}
+		for _, p := range in.Views {
+			views, prefixes = append(views, ocifilter.Sub(base, string(p))), append(prefixes, p)
+		}
+		var steps []string
+		for i, op := range in.Hist {
+			oc := in.Ctxs[i]
+			if oc.View < 0 || oc.View >= len(views) {
+				panic("harness: no such view")
+			}
+			ctx, csc := ctxFor(oc.Scope)
+			mark := b.Mark()
+			res := perform(ctx, views[oc.View], op, ws, i, in.againOf(i), kept)
+			calls := b.Since(mark)
+			obs.Ops = append(obs.Ops, obsOp{Res: res, Calls: calls})
+			terms = append(terms, "("+res.Coq()+", "+callsCoq(calls)+")")
+			steps = append(steps, "(("+filt.B(prefixes[oc.View])+", "+csc.Coq()+"), "+op.Coq()+")")
+		}
+		obs.BackendCalls = len(b.Calls)
+		return fmt.Sprintf("CHistV %s %s", hx.List(steps), hx.List(terms)), obs
+	}
 	for i, op := range in.Hist {
 		mark := b.Mark()
 		res := perform(ctx, w, op, ws, i, in.againOf(i), kept)
@@ -349,6 +396,15 @@ func runSeq(in input) (string, observed) {
 	var obs observed
 	var mark, delivered0 int
 	panicked, pv := hx.Recover(func() {
+		// the calls the view served before, each under its own scope
+		for i, sc := range in.Warm {
+			wctx, _ := ctxFor(sc)
+			if i%2 == 0 {
+				w.ResolveTag(wctx, "warm/up", "sometag")
+			} else {
+				drainStrings(w.Repositories(wctx, "warm"))
+			}
+		}
 		seq := w.Repositories(ctx, string(in.Start))
 		// the earlier iterations over the same sequence value: not part of the observation
 		for _, stop := range in.PrevStops {
@@ -747,6 +803,46 @@ func scopeClass(sc *filt.Scope) string {
 	return "no-repository"
 }
 
+// scopeRel says how the scope of a call stands to the scope of the call before it.
+func scopeRel(a, b *filt.Scope) string {
+	if a == nil || b == nil || a.Unlimited || b.Unlimited || len(a.Items) == 0 || len(b.Items) == 0 {
+		return "one-is-none-unlimited-or-empty"
+	}
+	set := func(s *filt.Scope) map[filt.RS]bool {
+		m := map[filt.RS]bool{}
+		for _, it := range s.Items {
+			m[it] = true
+		}
+		return m
+	}
+	sa, sb := set(a), set(b)
+	aInB, bInA := true, true
+	common := false
+	for it := range sa {
+		if sb[it] {
+			common = true
+		} else {
+			aInB = false
+		}
+	}
+	for it := range sb {
+		if !sa[it] {
+			bInA = false
+		}
+	}
+	switch {
+	case aInB && bInA:
+		return "equal"
+	case bInA:
+		return "narrower"
+	case aInB:
+		return "wider"
+	case common:
+		return "overlapping"
+	}
+	return "disjoint"
+}
+
 func main() {
 	cfg := hx.ParseFlags()
 	out := hx.NewOut(cfg, "Obs.C13")
@@ -775,12 +871,32 @@ func main() {
 		if len(in.Again) > 0 || len(in.PrevStops) > 0 || in.Pass > 0 {
 			class += "/iterated-again"
 		}
+		if len(in.Ctxs) > 0 || len(in.Warm) > 0 {
+			class += "/per-call-scope"
+		}
+		if len(in.Views) > 0 {
+			class += "/views-together"
+		}
 		if out.Add(hx.Case{Coq: coq, Desc: map[string]any{"input": in, "observed": obs, "origin": origin},
 			Tags: map[string]any{"class": class, "method": m, "kind": in.Kind}}) {
 			out.Count("kind:" + in.Kind)
 			out.Count("method:" + m)
 			out.Count("origin:" + origin)
-			out.Count("scope:" + scopeClass(in.Scope))
+			if len(in.Ctxs) == 0 {
+				out.Count("scope:" + scopeClass(in.Scope))
+			} else {
+				out.Count("scope:per-call")
+				for i := range in.Ctxs {
+					out.Count("call-scope:" + scopeClass(in.Ctxs[i].Scope))
+					if i > 0 {
+						out.Count("call-scope-vs-previous:" + scopeRel(in.Ctxs[i-1].Scope, in.Ctxs[i].Scope))
+					}
+				}
+				out.Count(fmt.Sprintf("views-alive-together:%d", 1+len(in.Views)))
+			}
+			if len(in.Warm) > 0 {
+				out.Count("seq:after-earlier-calls-on-the-view")
+			}
 			if in.Prefix == "" {
 				out.Count("prefix:empty")
 			} else {
@@ -1066,6 +1182,100 @@ func main() {
 			}
 		}
 	}
+	// ---- a view serves many calls, each with its own context: the scope the backend sees
+	// is the rewritten scope of THIS call, whatever the calls before carried. The pool holds
+	// the 8 shapes and scopes that are parts of them / share entries with them, so that every
+	// ordered pair (equal, narrower, wider, overlapping, disjoint, same size, none, unlimited,
+	// empty) follows one another on one view value: X, Y, X. Methods in rotation. ----
+	scopePool := func(n, n2 string) []*filt.Scope {
+		var pool []*filt.Scope
+		for sk := 0; sk < 8; sk++ {
+			pool = append(pool, scopesFor(n, n2, sk))
+		}
+		return append(pool,
+			&filt.Scope{Items: []filt.RS{rs("repository", n, "push")}},
+			&filt.Scope{Items: []filt.RS{rs("repository", n2, "pull")}},
+			&filt.Scope{Items: []filt.RS{rs("repository", n, "pull"), rs("repository", n2, "pull")}},
+			&filt.Scope{Items: []filt.RS{rs("registry", "catalog", "*")}},
+			&filt.Scope{Items: []filt.RS{rs("repository", n, "pull"), rs("registry", "catalog", "*")}},
+			&filt.Scope{Items: []filt.RS{rs("repository", n, "pull"), rs("repository", n, "push")}},
+			&filt.Scope{Items: []filt.RS{rs("other", n, "pull")}})
+	}
+	type viewCfg struct {
+		p     string
+		stack []S
+	}
+	viewCfgs := []viewCfg{{"foo", nil}, {"a/b/c", nil}, {"foo/bar", []S{"foo", "bar"}}, {"a/a", []S{"a", "a"}}}
+	nthMethod := func(i int) string { return filt.Methods[((i%len(filt.Methods))+len(filt.Methods))%len(filt.Methods)] }
+	opFor := func(m, n, n2 string, v int) filt.Op { return sampleOp(m, n, n2, v) }
+	// the scopes and the views are the subject here: a short listing with a name under the
+	// prefix, a sibling sharing its text, an unrelated name
+	shortListing := func(p string) []S { return []S{S(p + "/one"), S(p + "ey/x"), "zed"} }
+	{
+		pool := scopePool("b/c", "d")
+		for xi, x := range pool {
+			for yi, y := range pool {
+				if xi == yi {
+					continue
+				}
+				k++
+				v := viewCfgs[k%len(viewCfgs)]
+				h := []filt.Op{opFor(nthMethod(k), "b/c", "d", k), opFor(nthMethod(k*7+3), "b/c", "d", k), opFor(nthMethod(k*5+1), "d", "b/c", k)}
+				add(input{Kind: "hist", Prefix: S(v.p), Stack: v.stack, Hist: h, Ctxs: []opCtx{{Scope: x}, {Scope: y}, {Scope: x}},
+					Backend: backendCfg{Fail: k%5 == 0, List: shortListing(v.p)}}, "enum-ctxs")
+			}
+		}
+		// every method as the call that follows a wider, a narrower, an overlapping scope, and as
+		// the call that leaves the scope behind for the next one
+		wide, narrow, other, part := pool[3], pool[2], pool[9], pool[10]
+		for vi, v := range viewCfgs {
+			for mi, m := range filt.Methods {
+				if (vi+mi)%2 == 1 {
+					continue // every method on two of the four views
+				}
+				k++
+				m2 := nthMethod(mi + 5)
+				h := []filt.Op{opFor(m, "b/c", "d", 0), opFor(m, "b/c", "d", 1), opFor(m2, "d", "b/c", 0), opFor(m, "d", "b/c", 0), opFor(m, "b/c", "d", 0), opFor(m2, "b/c", "d", 0)}
+				add(input{Kind: "hist", Prefix: S(v.p), Stack: v.stack, Hist: h,
+					Ctxs:    []opCtx{{Scope: wide}, {Scope: narrow}, {Scope: part}, {Scope: other}, {Scope: wide}, {Scope: pool[12]}},
+					Backend: backendCfg{Fail: k%5 == 0, List: shortListing(v.p)}}, "enum-ctxs")
+			}
+		}
+		// ---- several views alive together over one backend (other prefixes, the same prefix as
+		// a second value, a prefix that extends the first, the empty prefix = the backend itself):
+		// the calls go from one to the other under equal and under different scopes; each is
+		// judged by its own view's prefix ----
+		for _, vs := range [][]S{{"foo", "a"}, {"foo", "foo/bar"}, {"a", "a/b/c", "a/b"}, {"foo", "foo"}, {"foo", ""}, {"Foo", "foo"}, {"a/b/c", "a"}} {
+			for mi, m := range filt.Methods {
+				{
+					k++
+					// equal scopes, then a narrower one; a wider one; an overlapping one
+					pr := [][2]*filt.Scope{{pool[3], pool[3]}, {pool[3], pool[2]}, {pool[2], pool[10]}}[k%3]
+					last := len(vs) - 1
+					m2 := nthMethod(mi + 7)
+					h := []filt.Op{opFor(m, "b/c", "d", k), opFor(m, "b/c", "d", k), opFor(m2, "b/c", "d", k), opFor(m, "d", "b/c", k), opFor(m2, "b/c", "d", k)}
+					add(input{Kind: "hist", Prefix: vs[0], Views: vs[1:], Hist: h,
+						Ctxs:    []opCtx{{Scope: pr[0]}, {Scope: pr[0], View: 1}, {Scope: pr[1]}, {Scope: pr[0], View: last}, {Scope: pr[1], View: 1}},
+						Backend: backendCfg{Fail: k%5 == 0, List: shortListing(string(vs[0]))}}, "enum-views")
+				}
+			}
+		}
+		// ---- one view, one scope, names that are related to the name of the call before (a
+		// parent, a child, another case, with a slash more, the empty name, the name the
+		// previous one would clean to): n1, n2, n1 ----
+		related := [][2]string{{"b/c", "b"}, {"b", "b/c"}, {"b", "B"}, {"b", "b/"}, {"b", ""}, {"../other", "other"}, {"b/../c", "c"}, {"foo", "b"}}
+		{
+			for _, pr := range related {
+				for _, m := range filt.Methods {
+					k++
+					v := viewCfgs[k%3]
+					add(input{Kind: "hist", Prefix: S(v.p), Stack: v.stack, Scope: scopesFor(pr[0], pr[1], 2+k%3),
+						Hist:    []filt.Op{sampleOp(m, pr[0], pr[1], k), sampleOp(m, pr[1], pr[0], k), sampleOp(m, pr[0], pr[1], k)},
+						Backend: backendCfg{Fail: k%5 == 0, List: shortListing(v.p)}}, "enum-names")
+				}
+			}
+		}
+	}
 	// promoted methods of the embedded Funcs
 	for _, m := range filt.Methods {
 		add(input{Kind: "promoted", Prefix: "foo", Method: m}, "promoted")
@@ -1119,6 +1329,57 @@ func main() {
 		}
 		return sc
 	}
+	// randCtxs: for half of the histories, a context of its own for every call. The scopes
+	// walk: the same as the call before, a part of it, it and more, or a fresh one; the calls
+	// go to the case's view or to one of up to two further views. An operation that iterates
+	// a kept sequence again is the call that made the sequence: same context, same view.
+	randCtxs := func(h []filt.Op, again []int) ([]opCtx, []S) {
+		if rnd.Intn(2) == 0 {
+			return nil, nil
+		}
+		var views []S
+		if rnd.Intn(3) == 0 {
+			for n := 1 + rnd.Intn(2); n > 0; n-- {
+				views = append(views, S(prefixes[rnd.Intn(len(prefixes))]))
+			}
+		}
+		ctxs := make([]opCtx, len(h))
+		prev := randScope()
+		for i := range h {
+			if i < len(again) && again[i] > 0 {
+				ctxs[i] = ctxs[again[i]-1]
+				continue
+			}
+			sc := prev
+			limited := prev != nil && !prev.Unlimited && len(prev.Items) > 0
+			switch r := rnd.Intn(10); {
+			case r < 2: // the same
+			case r < 5 && limited: // a part of it (not empty when it has two entries or more)
+				var items []filt.RS
+				for _, it := range prev.Items {
+					if rnd.Intn(2) == 0 {
+						items = append(items, it)
+					}
+				}
+				if len(items) == 0 {
+					items = []filt.RS{prev.Items[rnd.Intn(len(prev.Items))]}
+				}
+				sc = &filt.Scope{Items: items}
+			case r < 7 && limited: // it and more
+				items := append([]filt.RS{}, prev.Items...)
+				if more := randScope(); more != nil {
+					items = append(items, more.Items...)
+				}
+				items = append(items, rs("repository", randName(), "pull"))
+				sc = &filt.Scope{Items: items}
+			default:
+				sc = randScope()
+			}
+			ctxs[i] = opCtx{Scope: sc, View: rnd.Intn(len(views) + 1)}
+			prev = sc
+		}
+		return ctxs, views
+	}
 	// ---- random histories, scripted backend ----
 	for i := 0; i < nh; i++ {
 		p := prefixes[rnd.Intn(len(prefixes))]
@@ -1149,7 +1410,8 @@ func main() {
 		if rnd.Intn(3) == 0 {
 			bc.ListErr = seqErr
 		}
-		add(input{Kind: "hist", Prefix: S(p), Stack: stack, Scope: randScope(), Hist: h, Again: again, Backend: bc}, "random")
+		ctxs, views := randCtxs(h, again)
+		add(input{Kind: "hist", Prefix: S(p), Stack: stack, Scope: randScope(), Ctxs: ctxs, Views: views, Hist: h, Again: again, Backend: bc}, "random")
 	}
 	// ---- random histories over a recording backend in front of ocimem, and the same
 	// histories differentially against a twin registry ----
@@ -1208,7 +1470,12 @@ func main() {
 		if rnd.Intn(2) == 0 {
 			h, again = withAgain(h)
 		}
-		add(input{Kind: kind, Prefix: S(p), Stack: randStack(p), Scope: randScope(), Hist: h, Again: again, Backend: backendCfg{Mem: content}}, "random-mem")
+		var ctxs []opCtx
+		var views []S
+		if kind == "hist" && len(h) > 0 {
+			ctxs, views = randCtxs(h, again)
+		}
+		add(input{Kind: kind, Prefix: S(p), Stack: randStack(p), Scope: randScope(), Ctxs: ctxs, Views: views, Hist: h, Again: again, Backend: backendCfg{Mem: content}}, "random-mem")
 	}
 	// ---- listings yield by yield: random contents, errors anywhere, consumers that stop anywhere ----
 	for i := 0; i < nseq; i++ {
@@ -1229,6 +1496,15 @@ func main() {
 		if rnd.Intn(3) > 0 {
 			k := rnd.Intn(len(evs) + 2)
 			in.Stop = &k
+		}
+		// the calls the view served before the listing, under scopes of their own
+		for n := []int{0, 0, 1, 2, 3}[rnd.Intn(5)]; n > 0; n-- {
+			sc := randScope()
+			if in.Scope != nil && !in.Scope.Unlimited && rnd.Intn(2) == 0 {
+				// the listing's scope and more
+				sc = &filt.Scope{Items: append(append([]filt.RS{}, in.Scope.Items...), rs("repository", randName(), "pull"), rs("registry", "catalog", "*"))}
+			}
+			in.Warm = append(in.Warm, sc)
 		}
 		// the observed iteration is the first, second or third over the sequence value
 		for n := []int{0, 0, 1, 1, 2}[rnd.Intn(5)]; n > 0; n-- {
